@@ -637,3 +637,43 @@ Proof. exact Proofs.FnCnaryEstimator.fn_center_estimator_callable. Qed.
 Theorem C15_source_estimator_known : forall s m1 m2 m3 m4,
   Gen.FnCnaryEstimator.fn_estimator_known s m1 m2 m3 m4 = match est_of_name s with Some _ => true | None => false end.
 Proof. exact Proofs.FnCnaryEstimator.fn_estimator_known_eq. Qed.
+
+From CNV Require Proofs.FnCnaryGuess Proofs.FnCnaryFlatWhole Proofs.FnSexCommand.
+
+(* guess_xx, the whole function: no decision -> None, otherwise the decision negated (`~is_xy`) *)
+Theorem C15_source_guess_xx : forall gstat hap build t keys verbose,
+  guess_xx gstat hap build t = Gen.FnCnaryGuess.fn_guess_xx (sex_decision gstat hap build t) keys verbose.
+Proof. exact Proofs.FnCnaryGuess.fn_guess_xx_eq. Qed.
+
+(* expect_flat_log2, the whole function per bin: with the reference sex given ... *)
+Theorem C15_source_flat_whole_given : forall hap build t g,
+  expect_flat hap build t =
+  map (fun b => Gen.FnCnaryFlatWhole.fn_expect_flat_whole (Some hap) g 0 (chr_x_filter t build b) (chr_y_filter t build b)
+                                                         (chr_y_filter t None b)) t.
+Proof. exact Proofs.FnCnaryFlatWhole.fn_expect_flat_whole_given. Qed.
+
+(* ... and left out: `not self.guess_xx(diploid_parx_genome=..., verbose=False)` decides (a missing guess: haploid) *)
+Theorem C15_source_flat_whole_guess : forall gstat build t,
+  expect_flat_guess gstat build t =
+  map (fun b => Gen.FnCnaryFlatWhole.fn_expect_flat_whole None (guess_xx gstat false build t) 0
+                  (chr_x_filter t build b) (chr_y_filter t build b) (chr_y_filter t None b)) t.
+Proof. exact Proofs.FnCnaryFlatWhole.fn_expect_flat_whole_guess. Qed.
+
+(* commands.do_sex: strsign picks the "+" format exactly for a positive number (NaN: the plain one) *)
+Theorem C15_source_strsign : forall q plus plain,
+  Gen.FnSexCommand.fn_strsign (Some q) plus plain = (if strsign_plus q then plus else plain) /\
+  Gen.FnSexCommand.fn_strsign None plus plain = plain.
+Proof. exact Proofs.FnSexCommand.fn_strsign_eq. Qed.
+
+(* commands.do_sex: one row (guess_and_format, whole) is the model's do_sex_row: the label, and the two ratios printed
+   exactly when compare_sex_chromosomes returned statistics ("NA" otherwise) *)
+Theorem C15_source_do_sex_row : forall gstat hap build t sample x_text y_text,
+  let r := do_sex_row gstat hap build t in
+  Gen.FnSexCommand.fn_guess_and_format (sex_decision gstat hap build t)
+    (Proofs.FnSexCommand.stats_keys (Proofs.FnSexCommand.has_ratios r)) sample x_text y_text =
+  (sample, fst r, if Proofs.FnSexCommand.has_ratios r then x_text else "NA"%string,
+   if Proofs.FnSexCommand.has_ratios r then y_text else "NA"%string).
+Proof. exact Proofs.FnSexCommand.fn_guess_and_format_eq. Qed.
+
+Theorem C15_source_do_sex_columns : do_sex_header = Gen.FnSexCommand.fn_do_sex_columns.
+Proof. exact Proofs.FnSexCommand.fn_do_sex_columns_eq. Qed.
